@@ -344,6 +344,7 @@ pub fn build_batch(gens: &[&Generated], ids: &[usize], paths: &BatchPaths, scrat
     let dir = scratch.join(format!("batch{tag}"));
     std::fs::create_dir_all(&dir).map_err(|e| e.to_string())?;
     let mut main = String::new();
+    let mut module_starts: Vec<(usize, usize)> = vec![];
     let mut hash_input = String::new();
     let rlib_meta = std::fs::metadata(&paths.vexec_rlib).map_err(|e| format!("libvexec.rlib: {e}"))?;
     hash_input.push_str(&format!(
@@ -360,6 +361,7 @@ pub fn build_batch(gens: &[&Generated], ids: &[usize], paths: &BatchPaths, scrat
         hash_input.push_str(&module_for_hash);
         hash_input.push_str(&gen.code);
         hash_input.push_str(&vmodel::sexp::to_sexp(&gen.grammar));
+        module_starts.push((main.lines().count() + 1, *id));
         main.push_str(&module_source(&name, gen, &code_path)?);
     }
     main.push_str("fn main() {\n    vexec::driver::main_batch(&[\n");
@@ -395,7 +397,40 @@ pub fn build_batch(gens: &[&Generated], ids: &[usize], paths: &BatchPaths, scrat
     if !output.status.success() {
         let err = String::from_utf8_lossy(&output.stderr).to_string();
         let _ = std::fs::remove_dir_all(&dir);
-        return Err(err);
+        // culprits = modules holding the primary location of an error (the `-->` line right after an `error`
+        // header; locations inside notes may point into innocent modules)
+        let mut culprits: Vec<usize> = vec![];
+        let mut after_header = false;
+        for line in err.lines() {
+            if line.starts_with("error") {
+                after_header = true;
+                continue;
+            }
+            if after_header {
+                after_header = false;
+                let Some(pos) = line.find("--> ") else { continue };
+                let loc = &line[pos + 4..];
+                let id = if let Some(g) = loc.rfind("/g") {
+                    let digits: String = loc[g + 2..].chars().take_while(|c| c.is_ascii_digit()).collect();
+                    if loc[g + 2 + digits.len()..].starts_with(".rs") { digits.parse::<usize>().ok() } else { None }
+                } else {
+                    None
+                };
+                let id = id.or_else(|| {
+                    // a location in batch.rs: find the module by line number
+                    let rest = loc.rsplit("batch.rs:").next()?;
+                    let ln: usize = rest.split(':').next()?.parse().ok()?;
+                    module_starts.iter().rev().find(|(start, _)| *start <= ln).map(|(_, id)| *id)
+                });
+                if let Some(id) = id {
+                    if !culprits.contains(&id) {
+                        culprits.push(id);
+                    }
+                }
+            }
+        }
+        let head = format!("CULPRITS:{}\n", culprits.iter().map(|c| format!(" {c}")).collect::<String>());
+        return Err(head + &err);
     }
     std::fs::create_dir_all(&paths.cache).map_err(|e| e.to_string())?;
     let tmp = paths.cache.join(format!("{hash}.tmp{}", std::process::id()));
@@ -485,6 +520,8 @@ pub fn run_batch(bin: &Path, njobs: usize, args: &[String]) -> RunResult {
                 }
             } else if line == "DONE" {
                 done = true;
+            } else if line.starts_with("MACHINERY ") {
+                vcommon::machinery_failure(line);
             }
         }
         if done && status.success() {
@@ -599,30 +636,28 @@ pub fn run_family(grammars: &[Grammar], args: &[String], run: bool) -> BOutcome 
                     let mut err = first_err;
                     let mut ok = vec![];
                     for round in 0..4 {
-                        let mut culprits: Vec<usize> = vec![];
-                        for line in err.lines() {
-                            if let Some(pos) = line.find("--> ") {
-                                let path = &line[pos + 4..];
-                                if let Some(g) = path.rfind("/g") {
-                                    let digits: String = path[g + 2..].chars().take_while(|c| c.is_ascii_digit()).collect();
-                                    if let Ok(id) = digits.parse::<usize>() {
-                                        if rest.contains(&id) && !culprits.contains(&id) {
-                                            culprits.push(id);
-                                        }
-                                    }
-                                }
-                            }
-                        }
+                        let culprits: Vec<usize> = err
+                            .lines()
+                            .next()
+                            .and_then(|l| l.strip_prefix("CULPRITS:"))
+                            .map(|l| l.split_whitespace().filter_map(|x| x.parse().ok()).filter(|id| rest.contains(id)).collect())
+                            .unwrap_or_default();
                         if culprits.is_empty() {
                             break;
                         }
                         for c in &culprits {
-                            let msg: String = err
+                            let mut msg: String = err
                                 .split("\nerror")
-                                .filter(|chunk| chunk.contains(&format!("/g{c:06}.rs")))
+                                .skip(1)
+                                .filter(|chunk| {
+                                    chunk.lines().nth(1).is_some_and(|l| l.contains(&format!("/g{c:06}.rs")))
+                                })
                                 .map(|chunk| format!("error{chunk}"))
                                 .collect::<Vec<_>>()
                                 .join("\n");
+                            if msg.is_empty() {
+                                msg = err.lines().skip(1).collect::<Vec<_>>().join("\n");
+                            }
                             bad.push((*c, msg));
                         }
                         rest.retain(|i| !culprits.contains(i));
